@@ -34,8 +34,9 @@ WHITE_BOX = ["private running statistics (twin comparison only)"]
 SIM_TIME_UNIT = "calls into menelaus over all faulted runs (logical time)"
 NAMES = ["a", "b", "c", "d"]
 UNIVARIATE = ("ADWIN", "CUSUM", "PageHinkley", "CDBD")
-DETS = {"ADWIN": 30, "CUSUM": 30, "PageHinkley": 30, "KdqTreeStreaming": 16, "PCACD": 6, "DDM": 24, "EDDM": 24, "STEPD": 20,
-        "LinearFourRates": 8, "ADWINAccuracy": 16, "KdqTreeBatch": 16, "HDDDM": 24, "CDBD": 20, "NNDVI": 14}
+DETS = {"KdqTreeStreaming": 10, "KdqTreeBatch": 12, "PCACD": 6, "ADWIN": 30, "CUSUM": 30, "PageHinkley": 30, "DDM": 24, "EDDM": 24,
+        "STEPD": 20, "LinearFourRates": 8, "ADWINAccuracy": 16, "HDDDM": 24, "CDBD": 20, "NNDVI": 14}
+HEAVY = ["KdqTreeStreaming", "KdqTreeBatch", "PCACD"]
 X_KINDS = ["rows2", "rows2_df", "rows0", "width+1", "width-1", "df_width+1", "renamed", "multicol", "multicol_1d", "multicol_series"]
 Y_KINDS = ["y_true_multi", "y_pred_multi"]
 B_KINDS = ["rows1", "rows1_df", "width+1", "width-1", "df_width+1", "renamed", "multicol"]
@@ -78,7 +79,7 @@ def gen(rng, scenario, tier):
             ev.append([[x], rng.choice(tags), np_seed(rng)])
     else:
         d = adapters.n_features(rng, name)
-        n = rng.randint(28, 40) if name == "PCACD" else rng.randint(12, 40)
+        n = rng.randint(28, 40) if name == "PCACD" else rng.randint(12, 28 if name == "KdqTreeStreaming" else 40)
         xs, _ = workload.mv_stream(rng, n, d, drift_rate=0.08)
         tags = ["list", "nd1", "nd2", "series", "df"]
         for x in xs:
